@@ -3,7 +3,9 @@
 d=$(realpath $1); shift; prop=$1; shift
 git -C /repo diff --quiet || { echo "repo dirty"; exit 2; }
 git -C /repo apply "$d/patch.diff" || { echo "patch does not apply"; exit 2; }
-/verif/check $prop "$@" ; rc=$?
+# VERIF_ADHOC: the evidence of a run on a deliberately broken tree goes to
+# evidence/adhoc/, never over the committed evidence file
+VERIF_ADHOC=1 /verif/check $prop "$@" ; rc=$?
 git -C /repo checkout -- . 
 echo "seedtest $d $prop -> exit $rc"
 exit $rc
